@@ -670,6 +670,34 @@ func cmdCodec(args []string) {
 			}
 			decodeFirst(rec, k, b, spare, false)
 		}
+		// length-field arithmetic: every window of four octets of the fixed part set to pairs of length fields whose sum wraps
+		// at 8 or 16 bits (0003+ffff, 8000+8001, ff+01, ...), followed by a few octets, with and without spare capacity
+		pats := [][]byte{{0x00, 0x03, 0xff, 0xff}, {0xff, 0xff, 0x00, 0x03}, {0x80, 0x00, 0x80, 0x01}, {0xff, 0xfe, 0x00, 0x05}, {0x00, 0x01, 0xff, 0xff},
+			{0xff, 0x01, 0x00, 0x00}, {0x80, 0x80, 0x00, 0x01}, {0xff, 0xff, 0xff, 0x03}, {0x01, 0xff, 0x00, 0x00}, {0xff, 0xff, 0xff, 0xff}}
+		for _, k := range bodyKinds {
+			for _, fill := range []byte{0, 1} {
+				base := make([]byte, 12)
+				for i := range base {
+					base[i] = fill
+				}
+				for s0 := 0; s0+4 <= 12; s0++ {
+					for _, pat := range pats {
+						for _, tail := range []string{"abc", "abcdefgh"} {
+							b := append([]byte(nil), base[:12]...)
+							copy(b[s0:], pat)
+							b = append(b, tail...)
+							for _, cut := range []int{len(b), s0 + 4 + len(tail)} {
+								if cut > len(b) {
+									cut = len(b)
+								}
+								decodeFirst(rec, k, b[:cut], 64, false)
+								decodeFirst(rec, k, b[:cut], 0, false)
+							}
+						}
+					}
+				}
+			}
+		}
 		// large inputs: 65548+ octets
 		for i := 0; i < 2+n/5000; i++ {
 			big := make([]byte, 65548+g.rng.Intn(64))
